@@ -124,7 +124,10 @@ def mode_fn(cx, name, spec):
     cx.add('I-MODES', name + '/feedback', same_fb, 'feedback register update per block is %s(%s) (got %s)' % (kind, want, got), fn.loc())
     # tail for stream modes: out.push(data[blk*16+i] ^ E(BUF)[i]) for i in 0..len - blk*16
     if spec['tail']:
-        tl = [b for b in FR.calls_of(fn, 'next') if FR.arg_canon(fn, P, cn, b, 0) == 'into_iter(Range::Range{0, SubWithOverflow(len($data), MulWithOverflow(Div(len($data), 16), 16).0).0})']
+        # the tail loop: an index loop over 0..len - 16*(len/16), or the left-over of data.chunks_exact(16) zipped with the
+        # key-stream block (zip stops with the shorter side, the left-over)
+        tl = [b for b in FR.calls_of(fn, 'next') if FR.arg_canon(fn, P, cn, b, 0) == 'into_iter(Range::Range{0, SubWithOverflow(len($data), MulWithOverflow(Div(len($data), 16), 16).0).0})'
+              or FR.arg_canon(fn, P, cn, b, 0).startswith('into_iter(zip(iter(remainder(chunks_exact($data, 16))), iter(try(encrypt($self.cipher, ')]
         ok = len(tl) == 1
         tout = []
         if ok:
@@ -133,7 +136,10 @@ def mode_fn(cx, name, spec):
                 if b in tloop and t['fn']['k'] == 'def' and last(t['fn']['name']) == 'push':
                     tout.append(cn.c(norm(P.operand(t['args'][1], b, len(fn.blocks[b]['stmts'])))))
             I = 'each(Range::Range{0, SubWithOverflow(len($data), MulWithOverflow(Div(len($data), 16), 16).0).0})'
-            ok = len(tout) == 1 and tout[0].startswith('BitXor($data[AddWithOverflow(MulWithOverflow(Div(len($data), 16), 16).0, %s).0], index(try(encrypt($self.cipher, ' % I) and tout[0].endswith(', %s))' % I)
+            head = 'BitXor($data[AddWithOverflow(MulWithOverflow(Div(len($data), 16), 16).0, %s).0], ' % I
+            # the key-stream block indexed as a Vec (`index(E(..), i)`) or through a slice of it (`E(..)[i]`)
+            ok = len(tout) == 1 and ((tout[0].startswith(head + 'index(try(encrypt($self.cipher, ') and tout[0].endswith(', %s))' % I))
+                                     or (tout[0].startswith(head + 'try(encrypt($self.cipher, ') and tout[0].endswith('[%s])' % I)))
         cx.add('I-MODES', name + '/tail', ok, 'the final partial block is data[blk*16+i] xor E(register)[i] for i < len mod 16 (output length = input length)', fn.loc(), {'tail': [FR.short(x, 200) for x in tout]})
 
 
